@@ -391,6 +391,9 @@ func c17Run(c *fw.Ctx) fw.Outcome {
 			}
 		}
 		zero := map[int]int{}
+		if i == 1 {
+			zero[0] = 2 // the very first reads deliver nothing
+		}
 		if i%2 == 1 {
 			for j := 0; j < 5 && n > 0; j++ {
 				zero[c.R.Intn(n)] = c.R.Range(1, 2)
